@@ -189,6 +189,7 @@ type Parser struct {
 	prefix    string
 	currFunc  string
 	usedFuncs map[string][]string // Stores which function (key) calls which functions (values).
+	importers []string            // Paths of the files whose import (chain) led to this file.
 }
 
 func New() Parser {
@@ -702,7 +703,12 @@ func (p *Parser) evaluateImports(ctx context) ([]Statement, error) {
 				// If it's not a standard library path, an alias must be provided.
 				return nil, fmt.Errorf(`an alias must be provided for the local import "%s" in "%s"`, path, p.path)
 			}
+			// A file that is still being parsed cannot be imported again (import cycle).
+			if absPath == p.path || slices.Contains(p.importers, absPath) {
+				return nil, fmt.Errorf(`import cycle: "%s" is imported while it is being parsed (in "%s")`, absPath, p.path)
+			}
 			importParser := New()
+			importParser.importers = append(slices.Clone(p.importers), p.path)
 			importedProg, err := importParser.parse(absPath, true)
 
 			if err != nil {
